@@ -288,3 +288,56 @@ package ply
 //@   loop 1:
 //@     invariant 0 <= $i && $i <= len(element.Properties)
 //@     invariant not_seen_yet: forall c int :: 0 <= c && c < $i ==> sp(element, c).PropertyName != v1pr.PlyProperty
+
+// ---- C08: a built binary reader decodes each component at its own offset, for the group's type ---------
+// b32(buf, o) / b64(buf, o): the unsigned integer a ByteOrder decodes from the 4 / 8 bytes at offset o (the same
+// uninterpreted decode function ByteOrder.UintN is specified with; byte order itself is abstracted).
+
+//@ spec b32(buf []byte, o int) int = u32(buf[o], buf[o+1], buf[o+2], buf[o+3])
+//@ spec b64(buf []byte, o int) int = u64(buf[o], buf[o+1], buf[o+2], buf[o+3], buf[o+4], buf[o+5], buf[o+6], buf[o+7])
+//@ spec binType(t ScalarPropertyType) bool = t == UChar || t == Int || t == Float || t == Double
+//@ spec inRecord(buf []byte, o int, t ScalarPropertyType) bool = 0 <= o && o + t.Size() <= len(buf)
+
+//@ func builtBinaryVector3PropertyReader.Read
+//@   props C08
+//@   modifies bv3pr.arr
+//@   requires bv3pr != nil && 0 <= i && i < len(bv3pr.arr) && binType(bv3pr.scalarType)
+//@   requires offsets_inside_record: inRecord(buf, bv3pr.xOffset, bv3pr.scalarType) && inRecord(buf, bv3pr.yOffset, bv3pr.scalarType) && inRecord(buf, bv3pr.zOffset, bv3pr.scalarType)
+//@   ensures uchar_components: bv3pr.scalarType == UChar ==> bv3pr.arr[i].X() == real(buf[bv3pr.xOffset]) / 255.0 && bv3pr.arr[i].Y() == real(buf[bv3pr.yOffset]) / 255.0 && bv3pr.arr[i].Z() == real(buf[bv3pr.zOffset]) / 255.0
+//@   ensures float_components: bv3pr.scalarType == Float ==> bv3pr.arr[i].X() == f32frombits(b32(buf, bv3pr.xOffset)) && bv3pr.arr[i].Y() == f32frombits(b32(buf, bv3pr.yOffset)) && bv3pr.arr[i].Z() == f32frombits(b32(buf, bv3pr.zOffset))
+//@   ensures double_components: bv3pr.scalarType == Double ==> bv3pr.arr[i].X() == f64frombits(b64(buf, bv3pr.xOffset)) && bv3pr.arr[i].Y() == f64frombits(b64(buf, bv3pr.yOffset)) && bv3pr.arr[i].Z() == f64frombits(b64(buf, bv3pr.zOffset))
+//@   ensures int_components: bv3pr.scalarType == Int ==> bv3pr.arr[i].X() == real(int32(b32(buf, bv3pr.xOffset))) && bv3pr.arr[i].Y() == real(int32(b32(buf, bv3pr.yOffset))) && bv3pr.arr[i].Z() == real(int32(b32(buf, bv3pr.zOffset)))
+//@   ensures other_vertices_untouched: forall k int :: 0 <= k && k < len(bv3pr.arr) && k != i ==> bv3pr.arr[k] == old(bv3pr.arr[k])
+
+//@ func builtVector2PropertyReader.Read
+//@   props C08
+//@   modifies bv2pr.arr
+//@   requires bv2pr != nil && 0 <= i && i < len(bv2pr.arr) && binType(bv2pr.scalarType)
+//@   requires offsets_inside_record: inRecord(buf, bv2pr.xOffset, bv2pr.scalarType) && inRecord(buf, bv2pr.yOffset, bv2pr.scalarType)
+//@   ensures uchar_components: bv2pr.scalarType == UChar ==> bv2pr.arr[i].X() == real(buf[bv2pr.xOffset]) / 255.0 && bv2pr.arr[i].Y() == real(buf[bv2pr.yOffset]) / 255.0
+//@   ensures float_components: bv2pr.scalarType == Float ==> bv2pr.arr[i].X() == f32frombits(b32(buf, bv2pr.xOffset)) && bv2pr.arr[i].Y() == f32frombits(b32(buf, bv2pr.yOffset))
+//@   ensures double_components: bv2pr.scalarType == Double ==> bv2pr.arr[i].X() == f64frombits(b64(buf, bv2pr.xOffset)) && bv2pr.arr[i].Y() == f64frombits(b64(buf, bv2pr.yOffset))
+//@   ensures int_components: bv2pr.scalarType == Int ==> bv2pr.arr[i].X() == real(int32(b32(buf, bv2pr.xOffset))) && bv2pr.arr[i].Y() == real(int32(b32(buf, bv2pr.yOffset)))
+//@   ensures other_vertices_untouched: forall k int :: 0 <= k && k < len(bv2pr.arr) && k != i ==> bv2pr.arr[k] == old(bv2pr.arr[k])
+
+//@ func builtVector4PropertyReader.Read
+//@   props C08
+//@   modifies bv3pr.arr
+//@   requires bv3pr != nil && 0 <= i && i < len(bv3pr.arr) && binType(bv3pr.scalarType)
+//@   requires offsets_inside_record: inRecord(buf, bv3pr.xOffset, bv3pr.scalarType) && inRecord(buf, bv3pr.yOffset, bv3pr.scalarType) && inRecord(buf, bv3pr.zOffset, bv3pr.scalarType) && inRecord(buf, bv3pr.wOffset, bv3pr.scalarType)
+//@   ensures uchar_components: bv3pr.scalarType == UChar ==> bv3pr.arr[i].X() == real(buf[bv3pr.xOffset]) / 255.0 && bv3pr.arr[i].Y() == real(buf[bv3pr.yOffset]) / 255.0 && bv3pr.arr[i].Z() == real(buf[bv3pr.zOffset]) / 255.0 && bv3pr.arr[i].W() == real(buf[bv3pr.wOffset]) / 255.0
+//@   ensures float_components: bv3pr.scalarType == Float ==> bv3pr.arr[i].X() == f32frombits(b32(buf, bv3pr.xOffset)) && bv3pr.arr[i].Y() == f32frombits(b32(buf, bv3pr.yOffset)) && bv3pr.arr[i].Z() == f32frombits(b32(buf, bv3pr.zOffset)) && bv3pr.arr[i].W() == f32frombits(b32(buf, bv3pr.wOffset))
+//@   ensures double_components: bv3pr.scalarType == Double ==> bv3pr.arr[i].X() == f64frombits(b64(buf, bv3pr.xOffset)) && bv3pr.arr[i].Y() == f64frombits(b64(buf, bv3pr.yOffset)) && bv3pr.arr[i].Z() == f64frombits(b64(buf, bv3pr.zOffset)) && bv3pr.arr[i].W() == f64frombits(b64(buf, bv3pr.wOffset))
+//@   ensures int_components: bv3pr.scalarType == Int ==> bv3pr.arr[i].X() == real(int32(b32(buf, bv3pr.xOffset))) && bv3pr.arr[i].Y() == real(int32(b32(buf, bv3pr.yOffset))) && bv3pr.arr[i].Z() == real(int32(b32(buf, bv3pr.zOffset))) && bv3pr.arr[i].W() == real(int32(b32(buf, bv3pr.wOffset)))
+//@   ensures other_vertices_untouched: forall k int :: 0 <= k && k < len(bv3pr.arr) && k != i ==> bv3pr.arr[k] == old(bv3pr.arr[k])
+
+//@ func builtVector1PropertyReader.Read
+//@   props C08
+//@   modifies bv1pr.arr
+//@   requires bv1pr != nil && 0 <= i && i < len(bv1pr.arr) && binType(bv1pr.scalarType)
+//@   requires offsets_inside_record: inRecord(buf, bv1pr.offset, bv1pr.scalarType)
+//@   ensures uchar_value: bv1pr.scalarType == UChar ==> bv1pr.arr[i] == real(buf[bv1pr.offset]) / 255.0
+//@   ensures float_value: bv1pr.scalarType == Float ==> bv1pr.arr[i] == f32frombits(b32(buf, bv1pr.offset))
+//@   ensures double_value: bv1pr.scalarType == Double ==> bv1pr.arr[i] == f64frombits(b64(buf, bv1pr.offset))
+//@   ensures int_value: bv1pr.scalarType == Int ==> bv1pr.arr[i] == real(int32(b32(buf, bv1pr.offset)))
+//@   ensures other_vertices_untouched: forall k int :: 0 <= k && k < len(bv1pr.arr) && k != i ==> bv1pr.arr[k] == old(bv1pr.arr[k])
